@@ -7,6 +7,7 @@ import (
 	"go/ast"
 	"os"
 	"path/filepath"
+	"regexp"
 	"strings"
 
 	"golang.org/x/text/cases"
@@ -301,6 +302,24 @@ type Resolver struct {
 	Comment              string
 	ImplementationStr    string
 	ImplementationRender func(prevImplementation string, r *codegen.Field) string
+}
+
+var directiveRe = regexp.MustCompile(`^//(line |extern |export |[a-z0-9]+:[a-z0-9])`)
+
+// Directives returns the directive lines (//go:noinline, //nolint:gocyclo, ...) of the doc
+// comment of an existing resolver method. ast.CommentGroup.Text drops them, so they are not
+// part of Comment and have to be written back separately.
+func (r *Resolver) Directives() []string {
+	if r.PrevDecl == nil || r.PrevDecl.Doc == nil {
+		return nil
+	}
+	var out []string
+	for _, c := range r.PrevDecl.Doc.List {
+		if directiveRe.MatchString(c.Text) {
+			out = append(out, c.Text)
+		}
+	}
+	return out
 }
 
 // ReceiverName keeps the receiver name of an existing resolver method, so that a copied
